@@ -370,21 +370,20 @@ func (x *Exec) applyContract(s *State, in ssa.Instruction, f *ssa.Function, fc *
 	switch {
 	case fc.Pure:
 	case fc.HasAssign:
+		// all locations denote pre-state objects: evaluate them before any of them is havoc'd
+		var all []assignLoc
 		for _, a := range fc.Assigns {
 			locs, err := pre.assignLocs(a.E)
 			if err != nil {
 				x.abort(fmt.Sprintf("assigns of %s at %s: %v", callee, site, err))
 				return
 			}
-			for _, l := range locs {
-				x.havocLoc(s, l)
-				// the caller's own frame must allow it
-				if l.ref != nil {
-					x.noteWrite(s, l.key, l.ref)
-				} else {
-					x.noteWrite(s, l.key, nil)
-				}
-			}
+			all = append(all, locs...)
+		}
+		for _, l := range all {
+			x.havocLoc(s, l)
+			// the caller's own frame must allow it
+			x.noteWrite(s, l.key, l.ref)
 		}
 	default:
 		if len(f.Blocks) > 0 {
@@ -481,6 +480,9 @@ func (x *Exec) noteWrite(s *State, key string, ref *Term) {
 	var alts []*Term
 	if ref != nil {
 		alts = append(alts, ILe(x.entryAlloc, ref))
+		// index 0 is the nil reference: no object lives there (a store through nil is a separate
+		// safety obligation); an assigns item such as p.f.g with p.f == nil denotes it
+		alts = append(alts, Eq(ref, IntLit(0)))
 	}
 	for _, l := range x.assignLocs {
 		if l.key == "*" {
@@ -1021,16 +1023,18 @@ func (x *Exec) applyContractRaw(s *State, in ssa.Instruction, callee string, sig
 	switch {
 	case fc.Pure:
 	case fc.HasAssign:
+		var all []assignLoc
 		for _, a := range fc.Assigns {
 			locs, err := pre.assignLocs(a.E)
 			if err != nil {
 				x.abort(fmt.Sprintf("assigns of %s at %s: %v", callee, site, err))
 				return
 			}
-			for _, l := range locs {
-				x.havocLoc(s, l)
-				x.noteWrite(s, l.key, l.ref)
-			}
+			all = append(all, locs...)
+		}
+		for _, l := range all {
+			x.havocLoc(s, l)
+			x.noteWrite(s, l.key, l.ref)
 		}
 	default:
 		x.havocAll(s)
